@@ -1,7 +1,7 @@
 (* C12 — Commit is durable and versions are readable. Statements only. L2 model: the iavl library is
    its contract (SaveVersion / DeleteVersion one atomic batch each, LoadVersion(target) needs target). *)
 From Coq Require Import List ZArith NArith Bool Permutation.
-From PM Require Import Base.Bytes Store.KV Store.MergeProofs Store.RootMulti Store.RootMultiProofs Store.MultiCrash.
+From PM Require Import Base.Bytes Store.KV Store.MergeProofs Store.RootMulti Store.RootMultiProofs Store.QueryHistory Store.MultiCrash.
 Import ListNotations.
 Local Open Scope Z_scope.
 
@@ -50,7 +50,21 @@ Theorem C12_multistore_commit_durable ms ms' : 0 <= keep_recent (ms_prune ms) ->
     Forall2 (fun l nt => fst l = fst nt /\ t_work (snd l) = t_work (snd nt) /\ t_ver (snd l) = t_ver (snd nt) + 1)
             (ms_trees ms2) (ms_trees ms).
 Proof. exact (multistore_commit_durable ms ms'). Qed.
+(* over whole histories, any number of substores: a version that no pruning policy in force during the history ever
+   releases stays readable with exactly the content committed at it, whatever is written, deleted, committed or
+   re-configured afterwards (Store/QueryHistory.v); a released one is gone (C12_released_version_unreadable), and by
+   C14_query_after_any_history nothing else can ever be read at that height *)
+Theorem C12_retained_version_stays_readable h cs ops ms ms' name key c : h <> 0 ->
+  policies_ok h (ms_prune ms) ops -> all_kept h cs (ms_trees ms) -> mrun ops ms = Some ms' ->
+  find (fun p => beqb (fst p) name) cs = Some (name, c) -> ms_query ms' name key h = QValue (aget c key).
+Proof. exact (retained_version_stays_readable h cs ops ms ms' name key c). Qed.
+Theorem C12_kept_forever h cs ops ms ms' : policies_ok h (ms_prune ms) ops -> mrun ops ms = Some ms' ->
+  all_kept h cs (ms_trees ms) -> all_kept h cs (ms_trees ms').
+Proof. exact (mrun_kept h cs ops ms ms'). Qed.
+Example C12_ex_keep_everything kr h : never_releases {| keep_recent := kr; keep_every := 1 |} h.
+Proof. exact (keep_every_1_never_releases kr h). Qed.
 Print Assumptions C12_new_version.
+Print Assumptions C12_retained_version_stays_readable.
 Print Assumptions C12_retained_versions_untouched.
 Print Assumptions C12_released_version_unreadable.
 Print Assumptions C12_multistore_commit_durable.
